@@ -31,6 +31,7 @@ RULE = (
     "root). Non-trivial = the path set of the case hit node, blank and partial "
     "outcomes incl. a partial inside a leaf AND inside an extension. Distinct = "
     "canonical JSON."
+    ' Added after the seeded rounds: the path is also passed as list / Nibbles / deque / array / UserList; the caller scribbles on returned node bodies before the comparison; fixed deep-chain cases, traversed also with only 100 frames of stack left.'
 )
 LEVEL_TEXT = (
     "Exploration by differential property testing against the reference trie's "
